@@ -70,8 +70,12 @@ def nan_class(b):
 
 
 def unique_names(case):
+    """component names made unique; a LEADING U+FEFF is taken off every name: whether the JavaScript side keeps it is decided inside the `binary-parser` package
+    (its string fields are decoded with `TextDecoder`, which drops a leading byte-order mark by default, as the stand-in does), not in parser.ts — that package is not
+    installed here, so names that begin with a BOM are outside what this check can decide (DESIGN §9)"""
     for i, c in enumerate(case["header"]["components"]):
-        c["name"] = pc.hx("%s#%d" % (pc.unhx(c["name"])[:40], i))
+        c["points"] = [pc.hx(pc.unhx(p).lstrip("\ufeff")) for p in c["points"]]
+        c["name"] = pc.hx("%s#%d" % (pc.unhx(c["name"]).lstrip("\ufeff")[:40], i))
         c["format"] = pc.hx({1: "C", 2: "XC", 3: "XYC", 4: "XYZC"}.get(len(pc.unhx(c["format"])), "XYC"))
     return case
 
@@ -169,6 +173,8 @@ def run(ctx):
     v00 = []
     for _ in range(ctx.pick(50, 500)):
         h, fps, frames = gen_v00(rng, True)
+        for comp in h["components"]:
+            comp["points"] = [pc.hx(pc.unhx(p).lstrip("\ufeff")) for p in comp["points"]]        # see unique_names: a leading BOM is decided inside binary-parser
         for i, comp in enumerate(h["components"]):
             comp["name"] = pc.hx("c%d" % i)
         files.append(("v0.0 reference", refenc.v00(h, fps, frames), len(refenc.header(h, 0))))
@@ -253,6 +259,10 @@ def version_bands(ctx):
     while not pc.representable(base) or pc.total_points(base["header"]) == 0:
         base = unique_names(pc.gen_pose(rng, frames=1, people=1, ncomps=1, same_format="XYC"))
     base["body"]["fps"] = {"f32": 0x41C80000}
+    # the first coordinate is 0: when the band edges make a reader take the v0.1 body for a v0.2 one, the bytes of the people count and of that coordinate are read as the
+    # 32-bit frame count, and parser.ts allocates its arrays from the counts before it reads — a large count costs tens of milliseconds per file, and 70 000 files are evaluated
+    if base["body"]["data"]:
+        base["body"]["data"][0] = 0
     b02 = refenc.v02(base)[len(refenc.header(base["header"], pc.V02)):]
     c01 = {"header": base["header"], "body": dict(base["body"], fps={"int": 25})}
     b01 = refenc.v01(c01)[len(refenc.header(base["header"], pc.V01)):]
